@@ -105,6 +105,13 @@ pub fn one_case(kind: &str, si: &gen::SchemaInfo, input: &J, out: &mut Out) {
         "trace" => trace_case(si, input.as_str().unwrap(), out),
         "svisit" => svisit_case(&si.name, &si.text, out),
         "collect" => crate::collectcases::collect_case(si, input.as_str().unwrap(), out),
+        "transform" => {
+            for h in crate::transform::HOOKS.iter() { id(&format!("R_{}", h)); }
+            let mut rng = Rng::new(crate::env_seed());
+            let none: [Option<crate::transform::Probe>; 11] = Default::default();
+            crate::transform::transform_case(input.as_str().unwrap(), &none, out);
+            for _ in 0..20 { let h = crate::transform::random_hooks(&mut rng); crate::transform::transform_case(input.as_str().unwrap(), &h, out); }
+        }
         "validate" | "purity" => crate::valcases::validate_case(si, input.as_str().unwrap(), &tmpdir(), out),
         "c04" | "c10" | "c09" | "c11" | "c06" | "c07" | "c08" | "c05" => crate::valcases::rules_case(si, input.as_str().unwrap(), &crate::valcases::RULES, &tmpdir(), out),
         "ext" => {
@@ -338,6 +345,38 @@ pub fn generate(kind: &str, thorough: bool, seed: u64, corpus: &str, out: &mut O
                 let si = gen::SchemaInfo::new(&format!("random{}", i), &gen::random_schema(&mut rng));
                 out.schema(&si);
                 for t in random_docs(&si, &mut rng, 50, 4) { crate::valcases::rules_case(&si, &t, &rules, &tmp, out); }
+            }
+        }
+        "transform" => {
+            // marker names first, so their ids are stable
+            for h in crate::transform::HOOKS.iter() { id(&format!("R_{}", h)); }
+            // transform_list: all Keep/Replace patterns over argument lists of length <= 6 (value hook on Int n selects by n)
+            let none: [Option<crate::transform::Probe>; 11] = Default::default();
+            for len in 0..=6usize {
+                for mask in 0..(1usize << len) {
+                    // argument i has value 0 (kept) or 1 (replaced): value hook hits key = n + 10 with modulus 2, residue 1
+                    let args: Vec<String> = (0..len).map(|i| format!("a{}: {}", i, (mask >> i) & 1)).collect();
+                    let text = if len == 0 { "{ f }".to_string() } else { format!("{{ f({}) }}", args.join(", ")) };
+                    let mut h = none.clone();
+                    h[9] = Some(crate::transform::Probe { modulus: 2, residue: 1, marker: "R_value".into() });
+                    crate::transform::transform_case(&text, &h, out);
+                }
+            }
+            for si in pool() {
+                for t in corpus_docs(corpus, &si.name) { crate::transform::transform_case(&t, &none, out); }
+                for t in random_docs(&si, &mut rng, 120 * scale, 4) {
+                    crate::transform::transform_case(&t, &none, out);
+                    for i in 0..11 {
+                        if rng.pct(35) {
+                            let mut h = none.clone();
+                            let m = rng.range(1, 3);
+                            h[i] = Some(crate::transform::Probe { modulus: m, residue: rng.below(m), marker: format!("R_{}", crate::transform::HOOKS[i]) });
+                            crate::transform::transform_case(&t, &h, out);
+                        }
+                    }
+                    let h = crate::transform::random_hooks(&mut rng);
+                    crate::transform::transform_case(&t, &h, out);
+                }
             }
         }
         _ => panic!("unknown kind {}", kind),
